@@ -246,3 +246,18 @@ Fixpoint sorted_from (t : Z) (evs : list (Z * Z)) : bool :=
   | [] => true
   | (now, _) :: r => (t <=? now) && sorted_from now r
   end.
+
+(* spec decisions end at the first refusal; an observation agrees when it agrees on that prefix *)
+Fixpoint prefix_agrees (spec obs : list bool) : bool :=
+  match spec, obs with
+  | [], _ => true
+  | s :: sr, o :: or => Bool.eqb s o && prefix_agrees sr or
+  | _ :: _, [] => false
+  end.
+
+(* the sequences the theorems quantify over: window and times inside (0, 2^62), sizes inside [0, 2^40),
+   times non-decreasing *)
+Definition in_range (window : Z) (evs : list (Z * Z)) : bool :=
+  (0 <? window) && (window <? 2 ^ 62) &&
+  forallb (fun e => (0 <=? fst e) && (fst e <? 2 ^ 62) && (0 <=? snd e) && (snd e <? 2 ^ 40)) evs &&
+  sorted_from 0 evs.
